@@ -151,7 +151,15 @@ def rule_e(prog, rep):
         axis_kw = tm.kwarg(v.args[2], "axis")
         m_ok = tm.contains(margin_idx, lambda x: tm.is_const(x, -1))
         u_ok = tm.contains(unc, lambda x: x.op == "call" and tm.callee_name(x) == "builtins.slice" and x.args[1] == (tm.NONE, tm.const(-1)))
-        rep.check(m_ok and u_ok, "R-C02-e", where, "margin slice is coordinate -1, uncommon slice is [:-1] on the differenced axis", "", "margin %s, uncommon %s" % (tm.show(margin_idx)[:50], tm.show(unc)[:50]))
+        # decided only for index tuples written as a generator with a conditional element per axis; an index assembled some
+        # other way (a template list with one position replaced, a helper) is not read here
+        gen_form = all(tm.contains(ix, lambda x: x.op == "ifexp") for ix in (margin_idx, unc))
+        if m_ok and u_ok:
+            rep.proved("R-C02-e", where, "margin slice is coordinate -1, uncommon slice is [:-1] on the differenced axis", "")
+        elif gen_form:
+            rep.violated("R-C02-e", where, "margin slice is coordinate -1, uncommon slice is [:-1] on the differenced axis", "margin %s, uncommon %s" % (tm.show(margin_idx)[:50], tm.show(unc)[:50]))
+        else:
+            rep.undecided("R-C02-e", where, "margin slice is coordinate -1, uncommon slice is [:-1] on the differenced axis", "index tuples are not built by a per-axis generator: margin %s" % tm.show(margin_idx)[:60])
         a_ok = axis_kw is not None and axis_kw.op == "binop" and axis_kw.args[0] == "+" and tm.contains(axis_kw, lambda x: x.op == "call" and tm.callee_name(x) == "builtins.len")
         rep.check(a_ok, "R-C02-e", where, "the sum runs along the differenced axis, offset by the number of extra axes", "axis = len(scaffold) + axis", "axis is %s" % (axis_kw and tm.show(axis_kw)[:50]))
     # no axis is skipped: the store is unconditional inside the per-axis loop
@@ -171,8 +179,16 @@ def rule_e(prog, rep):
     # every axis in order
     li = I.loopinfo[e.loops[0]]
     it = li.get("iter")
-    all_axes = it is not None and tm.contains(it, lambda x: x.op == "call" and tm.callee_name(x) == "builtins.range") and tm.contains(it, lambda x: x.op == "attr" and x.args[1] == "dims")
-    rep.check(all_axes, "R-C02-e", where, "one differencing pass per dimension", "for axis in range(len(self.dims))", "loop runs over %s" % (it and tm.show(it)[:60]))
+    over_dims = it is not None and tm.contains(it, lambda x: x.op == "attr" and x.args[1] == "dims")
+    whole = it is not None and ((tm.contains(it, lambda x: x.op == "call" and tm.callee_name(x) == "builtins.range") and not tm.contains(it, lambda x: x.op == "binop"))
+                                or (it.op == "call" and tm.callee_name(it) == "builtins.enumerate" and len(it.args[1]) == 1 and it.args[1][0].op == "attr" and it.args[1][0].args[1] == "dims")
+                                or (it.op == "attr" and it.args[1] == "dims"))
+    if over_dims and whole:
+        rep.proved("R-C02-e", where, "one differencing pass per dimension", "the loop runs over every dimension: %s" % tm.show(it)[:50])
+    elif over_dims and tm.contains(it, lambda x: x.op == "sub" and x.args[1].op == "slice"):
+        rep.violated("R-C02-e", where, "one differencing pass per dimension", "the loop runs over a slice of the dimensions: %s" % tm.show(it)[:60], witness={"inputs": "a cube whose skipped dimension has rows in its common category"})
+    else:
+        rep.undecided("R-C02-e", where, "one differencing pass per dimension", "loop runs over %s" % (it and tm.show(it)[:60]))
 
 
 def rule_g(prog, rep):
